@@ -120,7 +120,7 @@ def gen_large(rng, kind):
             case["data"]["weak"] = True            # weak per-point evidence against a large switching cost
             case["beta"] = dict(form="float", value=float(rng.choice([30.0, 100.0])))
             case["init"] = dict(kind="blocks")
-    elif kind == "manyrounds":
+    elif kind in ("manyrounds", "slowdrift"):
         # a small problem kept from converging for dozens of rounds by forced labellings, then left to finish on its own:
         # behaviour that only sets in after many rounds shows in the natural rounds and in the final result
         case["data"].update(T=int(rng.integers(60, 120)), N=int(rng.integers(1, 3)), n_reg=2, seg=int(rng.integers(8, 30)))
@@ -133,6 +133,30 @@ def gen_large(rng, kind):
         case["init"] = dict(kind="blocks")
         syms = ["A", "B", "C"]
         case["label_script"] = dict(pattern=[syms[j % 3] for j in range(n_forced)], then="natural")
+        if kind == "slowdrift" or rng.random() < 0.25:
+            # slow drift: a long series whose forced labellings differ from round to round in a handful of points only, for more
+            # than a hundred rounds (shortcuts for "nearly settled" clusters)
+            case["data"].update(T=int(rng.integers(700, 1100)), N=1, n_reg=2, seg=int(rng.integers(150, 400)))
+            case["W"] = 1
+            case["K"] = 2
+            n_forced = int(rng.choice([101, 104, 120]))
+            case["limit"] = n_forced + int(rng.choice([1, 2]))
+            syms = ["A+1", "A+2", "A+3"]
+            case["label_script"] = dict(pattern=[syms[j % 3] for j in range(n_forced)], then="natural")
+    elif kind == "doublerepop":
+        # two clusters must be refilled in the same round from two different donors, neither of which was touched by the relabelling
+        # just before (forced for two rounds, then the run continues on its own)
+        m = int(rng.integers(4, 9))
+        a, b = int(rng.integers(2 * m, 3 * m)), int(rng.integers(2 * m, 3 * m))
+        W = int(rng.integers(1, 3))
+        case["data"].update(T=a + b + 6 + W - 1, N=int(rng.integers(1, 3)), n_reg=3, seg=int(rng.integers(6, 14)))
+        case["W"] = W
+        case["K"] = 5
+        case["m"] = m
+        case["limit"] = int(rng.choice([3, 3, 4, 20]))
+        case["beta"] = dict(form="float", value=float(rng.choice([0.5, 3.0, 20.0])))
+        case["init"] = dict(kind="blocks")
+        case["label_script"] = dict(pattern=["P5", "Q5"], then="natural", sizes=[a, b])
     elif kind == "manyK":
         case["data"].update(T=int(rng.integers(300, 520)), N=int(rng.integers(1, 3)), n_reg=6, seg=12)
         case["W"] = 1 if case["data"]["N"] == 2 else int(rng.integers(1, 3))
